@@ -379,4 +379,7 @@ def gen(seed, V, tier, index, bias=None):
         for t in tables_of(n):
             zs = None if deep and rng.random() < 0.5 else sorted(set(rng.sample(V.Z, 10) + [0, 1, 26]))
             evs.append([n, ["sweep", t, zs, deep and rng.random() < 0.3]])
+    nm = E.name_map(seed)
+    if nm:
+        cfg["names"] = nm
     return {"prop": "C08", "seed": seed, "index": index, "cfg": cfg, "events": evs}
